@@ -49,6 +49,26 @@ CHECKS.update({
         note=COMPUTE_NOTE,
         technique="Verus (Z3) on the verbatim body: error postconditions + panic/overflow freedom of the body and of the nix callees",
         design_ref="DESIGN.md section 4, C14"),
+    "C03": dict(
+        category="proof", engine="kani-woven",
+        text="At call granularity: ShmReader::snapshot is proved (Kani, real code, all versions/generations/cached generations/records/caches) to return the segment's record and cache its "
+             "generation exactly when the generation is even, non-zero and differs from the cached one, and otherwise to return the untouched cache, never an error, never writing to the segment; "
+             "together with the write contract (C11: generation strictly advances to the documented successor, record == published) and the write->fresh-snapshot round trip this gives: a later whole "
+             "call never returns an older publication, and with no update in flight it returns the latest one unless the cached generation coincides (the documented 32767 exception, visible as the "
+             "gen == cached case). Calls overlapping an update are NOT covered.",
+        note="Kani/CBMC sound; sequential atomics; quiescent-segment assumption is the property's own 'no update in flight'; interleavings are C02 (not applicable).",
+        technique="Kani full-domain contract harness on the real snapshot() (quiescent segment) + write contract + round-trip harness",
+        design_ref="DESIGN.md section 4, C03"),
+    "C04": dict(
+        category="proof", engine="kani-woven",
+        text="Crash states at call granularity: (i) snapshot on ANY segment state (any version/generation/record a dead writer can leave) serves the cache unless the generation is even, non-zero and new - "
+             "never a record under an odd/zero generation or version 0, never an error; (ii) write from ANY start generation (odd included) ends even/non-zero with the record complete (C11); (iii) "
+             "ShmWriter::new wipes iff the usability probe failed, otherwise takes the segment over in place (generation, record, magic, size untouched, version 1, pointers at 12/14/16); (iv) ShmReader::new "
+             "rejects files with version 0 / generation 0 / short header (new clients attach only after the first publication) - on a POSIX model linked into the run.",
+        note="States, not schedules (interleavings are C02). POSIX model and the three file-system stubs of ShmWriter::new are assumed contracts; wipe's byte output is unverified.",
+        technique="Kani full-domain harnesses on the real reader/writer code; C POSIX model linked via c-ffi; contract stubs for file-system functions",
+        design_ref="DESIGN.md section 4, C04"),
+
     "C07": dict(
         category="proof", engine="verus-extracted",
         text="extract_bound_from_tracking (verbatim body) is verified by Verus to return, on every path, the value of the documented expression ceil((delay/2 + dispersion + |offset|)*10^9) "
@@ -85,6 +105,25 @@ CHECKS.update({
         note="Kani/CBMC sound; SystemTime::elapsed and f64::powi stubbed by their contracts (listed); interval window stated.",
         technique="Kani full-domain harnesses (per wire exponent) on the real function with an exact integer oracle",
         design_ref="DESIGN.md section 4, C10"),
+    "C16": dict(
+        category="proof", engine="kani-woven",
+        text="ShmHeader::is_valid proved over all 2^128 header contents (Ok iff magic, version != 0, generation != 0, size >= 16; documented error kind per clause). ShmReader::new - the real code "
+             "including FdGuard/MmapGuard/ShmHeader::read and their libc FFI calls - proved against a C model of open/read/mmap/munmap/close/errno for every file length 0..96, symbolic header bytes, "
+             "missing file, directory, mmap failure: Ok iff header valid and declared size >= 72; NotInitialized / Malformed / SyscallError(errno) exactly as documented; descriptor closed on every path, "
+             "mapping released on every error path, pointers at offsets 12/14/16, no out-of-bounds access. segment_size() == 72; write then a fresh reader's snapshot reads back exactly the published "
+             "record; ShmWriter::new re-creates an unusable file with size 72.",
+        note="Assumed: the POSIX model; contract stubs for is_usable_segment/wipe/mmap_segment_at in ShmWriter::new; wipe's bytes through std::fs + byteorder are unverified (only its contract is used).",
+        technique="Kani full-domain harnesses on the real open path with a C POSIX model linked via c-ffi",
+        design_ref="DESIGN.md section 4, C16"),
+    "C18": dict(
+        category="proof", engine="kani-woven",
+        text="Proved (complete): with an update in flight (odd generation), a re-initialising segment (version 0 / generation 0) or an unchanged generation, snapshot returns its cached record after two "
+             "loads and zero record reads; with a quiescent fresh generation it performs exactly one record read. BOUNDED (not counted as proved): against an adversarial segment that changes arbitrarily "
+             "before every shared access, a call with retry budget N=3 performs <= N record reads and <= 2+2N shared accesses and ends with the cache, an accepted even-generation record, or "
+             "SegmentNotInitialized only after the full budget; the loop body is budget-independent so the bound scales to the real 1 000 000.",
+        note="Kani does not prove termination; loop contracts do not go through in Kani 0.68 here; the adversarial clause is a bounded stand-in with the stated bound.",
+        technique="Kani full-domain harness (early returns) + bounded adversarial-environment harness with woven havoc steps",
+        design_ref="DESIGN.md section 4, C18"),
     "C19": dict(
         category="proof", engine="kani-woven",
         text="The ppm->ppb statement of main(), cut verbatim from main.rs on every run and wrapped as a function, is proved for every Option<u32>: None -> 1000; Some(r) -> exactly 1000*r when "
